@@ -519,7 +519,7 @@ func C14Child(mode, tier string, seed int64) {
 	}
 	reps := 5
 	if !quick {
-		reps = 30
+		reps = 50
 	}
 	if mode == "plain" || mode == "asan" {
 		n := 3000
